@@ -39,6 +39,7 @@ class BatchBase(futures.FutureBase):
     def __init__(self):
         futures.FutureBase.__init__(self)  # Cython doesn't support super(...)
         self.items = []
+        self._flushing = False
 
     def is_flushed(self):
         return self.is_computed()
@@ -107,6 +108,12 @@ class BatchBase(futures.FutureBase):
         self.set_error(error)
 
     def _compute(self):
+        if self._flushing:
+            # asked for while its own flush body runs (the body, or a subscriber of an item
+            # it has just set, wants the value of an item that is not set yet): the body
+            # must not be entered a second time
+            raise BatchingError("Batch is being flushed.")
+        self._flushing = True
         self._try_switch_active_batch()
         try:
             self._flush()
